@@ -111,11 +111,13 @@ EXPLORE = {
     "C05": "Metamorphic contract: every available exact back end (only d-DNNF is installed here; SDD/BDD variants raise "
            "InstallError and are skipped, stated) and the log, user-defined, NSP and symbolic semirings must agree.",
     "C06": "Metamorphic contract: each semantics-neutral option, sampled combinations, log space and the evidence "
-           "spellings must give the reference answer.",
+           "spellings must give the reference answer (incl. propagate_evidence with propagate_weights, keep_all with "
+           "propagate_weights, three-head annotated disjunctions summing to 1 with negative evidence).",
     "C07": "Metamorphic contract: seeded permutations of statements, clauses and body literals must give the reference answer "
            "(probabilities and, strictly, the set of reported instances).",
     "C08": "Metamorphic contract: single-query groundings, one shared target grounded query by query in random order and "
-           "a reused prepared database must agree.",
+           "a reused prepared database must agree; also the queries added one ground_all call at a time to one target with "
+           "evidence propagation (one listed finding there).",
 }
 EXPLORE.update({
     "C09": "Translation validation of every instance: for each ground program of the family and every assignment to its "
@@ -131,7 +133,8 @@ EXPLORE.update({
            "same probabilities; the DIMACS text has exactly the clauses and counts of the internal CNF. to_prolog has four "
            "listed known failure modes; the DIMACS part holds.",
     "C26": "Metamorphic contract: subquery/2 and subquery/3 called from a deterministic wrapper bind the probability that "
-           "top-level (conditional) inference reports.",
+           "top-level (conditional) inference reports; negated goals in both spellings; negative evidence on all instances of "
+           "a unary predicate at once; sequences of subqueries in one clause.",
     "C29": "Metamorphic contract: parent.extend() (one extension or a chain of up to three) plus added clauses answers like "
            "preparing the union from scratch, also half-way through the additions (query, add, query again); the parent "
            "database answers as before the extension; the clauses enumerated by iterating the extension evaluate like the union.",
@@ -143,7 +146,8 @@ EXPLORE.update({
            "The planned proof of the compound/negation core was not built.",
     "C13": "Run-time contract on DefaultEngine.query / findall/3 for seeded deterministic programs against an independent SLD "
            "interpreter (answer order and duplicates) and a bottom-up least-model evaluator (recursive programs, answer sets); "
-           "three listed known deviations of the answer order. Second run-time contract, on the real ClauseIndex.find of "
+           "anonymous variables inside negation and findall, an earlier findall over the same facts, negative integer constants; "
+           "four listed known deviations of the answer order, decided on the clauses the goal can reach. Second run-time contract, on the real ClauseIndex.find of "
            "the prepared database: exactly the non-clashing clauses, in program order, index unchanged (the contract of "
            "DESIGN.md A.3, evaluated on seeded fact lists and argument patterns; its planned proof was not built).",
     "C14": "Run-time contract on =/2, \\=/2 and clause-head matching for all pairs of a core term set plus seeded random terms "
@@ -161,11 +165,14 @@ EXPLORE.update({
     "C21": "Run-time contract on dtproblog(search=exhaustive|local) and on the map task for seeded decision-theoretic "
            "programs against brute-force expected utility from possible-world enumeration: reported score = expected "
            "utility of the returned strategy; exhaustive: no strategy is better; local: no single flip improves; map: arg "
-           "max of the documented objective over the query facts. Four defects found this way were repaired (fix: commits).",
+           "max of the documented objective over the query facts (plus four fixed programs that query heads of an annotated "
+           "disjunction; one listed finding for partially queried disjunctions). Four defects found this way were repaired "
+           "(fix: commits).",
 })
 EXPLORE.update({
     "C33": "Run-time contract on cut/1 and cut/2 of library(cut) through the real pipeline for seeded indexed rule sets "
-           "(indices 1..15, shuffled file order, probabilistic applicability conditions, bound and free call patterns): in "
+           "(indices 1..15, shuffled file order, probabilistic applicability conditions, bound and free call patterns, compound "
+           "head arguments with a variable inside, cut/2 with a free and with a given index): in "
            "every world the answers are those of the matching applicable rule with the numerically smallest index. The "
            "library is Prolog text; the comparator behind its sort/2 is proved under C15. One known finding.",
 })
@@ -197,8 +204,9 @@ EXPLORE.update({
     "C19": "Run-time contract on findall/3 and all/3 over probabilistic goals through the real pipeline against exhaustive "
            "possible-world enumeration (exact rationals): every reported result list has the total probability of the worlds "
            "in which the ordered list of solutions (order of the facts in the program, template duplicates included) is that "
-           "list; all/3 has no answer in worlds without solutions. One known finding (order of the elements under negation, "
-           "the same class as C13's).",
+           "list; all/3 has no answer in worlds without solutions. Goals include shared subgoals with several proofs and an "
+           "earlier findall over the same facts. Known findings: order of the elements under negation (the same class as "
+           "C13's) and answers with several proofs in one world.",
 })
 EXPLORE.update({
     "C20": "Run-time contract on mpe_maxsat and mpe_semiring, called the way the mpe task calls them, against exhaustive "
